@@ -116,6 +116,10 @@ pub struct SeqProp {
     pub filter: Option<fjall_filter::Assigner>,
     /// C10: journal eviction oracle (records vs persisted seqno, crash image after every deletion, quiescence)
     pub journal_oracle: bool,
+    /// C12: keyspace set / existence / old-handle clauses after every step
+    pub keyspace_oracle: bool,
+    /// extra ops for C12 (old handles etc.)
+    pub c12_ops: bool,
 }
 
 impl SeqProp {
@@ -129,6 +133,8 @@ impl SeqProp {
             judge_only_after_reopen: false,
             filter: None,
             journal_oracle: false,
+            keyspace_oracle: false,
+            c12_ops: false,
         }
     }
 }
@@ -171,6 +177,22 @@ impl Property for SeqProp {
     fn step_check(&self, w: &mut World) -> Result<(), Violation> {
         if w.db.is_some() && w.dbi().journal_count() < 1 {
             return Err(Violation::new("journal_count", "journal_count() < 1"));
+        }
+        if self.keyspace_oracle && w.db.is_some() {
+            let want: Vec<String> = w.model.keys().map(|k| ksn(*k).to_string()).collect();
+            let got = w.listed();
+            if got != want {
+                return Err(Violation::new("keyspace_set", format!("list_keyspace_names() = {got:?}, expected {want:?}")));
+            }
+            for i in 0..3u8 {
+                let ex = w.dbi().keyspace_exists(ksn(i));
+                if ex != w.model.contains_key(&i) {
+                    return Err(Violation::new("keyspace_exists", format!("keyspace_exists({}) = {ex}", ksn(i))));
+                }
+            }
+            if w.dbi().keyspace_count() != w.model.len() {
+                return Err(Violation::new("keyspace_count", format!("keyspace_count() = {} expected {}", w.dbi().keyspace_count(), w.model.len())));
+            }
         }
         if self.journal_oracle && !w.journal_deletions.is_empty() {
             let deleted = std::mem::take(&mut w.journal_deletions);
@@ -300,6 +322,22 @@ impl Property for SeqProp {
         for ks in &a.delete {
             if exists(ks) {
                 ops.push(Op::Delete { ks: *ks });
+                if self.c12_ops && w.old.len() < 2 {
+                    ops.push(Op::DeleteKeep { ks: *ks });
+                }
+            }
+        }
+        if self.c12_ops {
+            for (i, o) in w.old.iter().enumerate() {
+                if o.is_some() {
+                    ops.push(Op::OldIns { slot: i as u8 });
+                    ops.push(Op::OldDrop { slot: i as u8 });
+                }
+            }
+            for ks in &a.create {
+                if exists(ks) && *ks == 0 && w.steps < 2 {
+                    ops.push(Op::OpenOther { ks: *ks });
+                }
             }
         }
         ops
